@@ -11,17 +11,22 @@ import itertools
 
 from ..common import leanio, rtlgen
 from ..common.leanio import InfraError
-from . import c07_flip
+from . import c07_flip, c01_mamba
 
 PID = 'C07'
 DRIVERS = ['rtl', 'flip']
 MODULE = ['PymtlVerif.Props.C07', 'PymtlVerif.Props.C07f']
 THEOREMS = ['PV.C07.' + t for t in ['denoteFF_wf', 'ff_perm', 'ff_reads_pre_edge', 'hold', 'last_wins', 'edge', 'next_eq_cur', 'tick_ff_perm']] + c07_flip.THEOREMS
 THEOREM_MODULE = {t: 'PymtlVerif.Props.C07f' for t in c07_flip.THEOREMS}
+# the packing of update_ff blocks into meta blocks by Mamba2020 (Model/Mamba.lean, Props/C01m.lean: packFF_flatten, ...)
+DRIVERS = DRIVERS + c01_mamba.DRIVERS
+MODULE = MODULE + [c01_mamba.MODULE]
+THEOREMS = THEOREMS + c01_mamba.THEOREMS_FF
+THEOREM_MODULE.update({t: c01_mamba.MODULE for t in c01_mamba.THEOREMS_FF})
 TRUSTED = [
   'Model/Rtl.lean ff part: <<= evaluates on current values and writes the shadow; flip installs the shadow of written registers; '
   'update_ff blocks assign whole top-level signals only (the DSL rejects slices/fields on the LHS of <<=)',
-] + c07_flip.TRUSTED
+] + c07_flip.TRUSTED + c01_mamba.TRUSTED
 ASSUMPTIONS = [
   'struct-typed registers are bit ranges of one signal in the model (their leaves flip together by construction); generated registers are Bits-typed',
   'update_ff blocks reading non-signal Python state are outside the hypothesis',
@@ -124,6 +129,7 @@ def run(ck):
   ck.extra_cov['designs'] = n
   # the grouping loop of schedule_posedge_flip (Props/C07f.lean): the C07 designs above and component trees
   c07_flip.run(ck, flip_tops)
+  c01_mamba.run(ck, part='ff')
 
 def flip_lines_add(ck, top, src, acc):
   # the generated double_buffer source lives in linecache under one fixed name: parse it right after scheduling
@@ -133,6 +139,7 @@ def flip_lines_add(ck, top, src, acc):
 
 def replay(ck, data):
   print(data.get('kind'), data.get('signature')); print(str(data.get('detail'))[:1500])
+  if (data.get('case') or {}).get('pass') in ('Mamba2020', 'HeuTopoUnrollSim'): return c01_mamba.replay(ck, data)
   r = c07_flip.replay(ck, data)
   if r is not None: return r
   return rtlgen.replay_source(ck, data.get('case') or {})
